@@ -70,6 +70,10 @@ CLAIMED = {
    "Thin structural part, decided on every run: the extractor constructor's dispatch (which key spelling leads to which extractor, found through a constant-set dataflow on the key) uses Base for .name, Full for .fullname, the sub-name lookup with prefix 'k=' and the GOMAXPROCS form exactly for /gomaxprocs, and the configuration lookup (empty when absent) otherwise; Base's two-case table (with '/': text before it, untouched; without: the shared splitter's prefix); Parts partitions the name; the -N splitter only splits at a '-' followed by at least one byte; the sub-name lookup scans in order and the first match decides, the -N form being limited to /gomaxprocs on the last part.",
    "Does NOT decide the behaviour on the irregular names the property is about beyond these structural conditions (value-level reasoning about byte strings: dash before slash inside segments, digit-only tails, empty base, multi-byte runes). Trusted: go/types, go/ssa.",
    "constant-set dataflow for the dispatch + decision-table extraction + guard rules"),
+ "C10": ("DESIGN.md §4 C10 (thin: tables only)",
+   "Thin structural part, decided on every run: the SI and IEC prefix ladders (list, start exponent, step, factor base) give the documented exponent maps with the empty prefix at 0; each rounding-boundary literal is 10^d - 5*10^(d-5) (decimal, exact rational) or the correctly rounded double with the right binary offset (hexadecimal, evaluated in the checker), reaches the threshold field that selects precision 3-d, through an inclusive comparison, coarse to fine; the sub-prefix ladder; the common scale's minimum takes magnitudes and skips zeros (iteration table); Scaler.Format is the single call AppendFloat(val/Factor,'f',Prec,64); the no-op scaler; ClassOf's token table is exactly {B, MB, bytes} in numerator position.",
+   "Does NOT decide the property's actual content: that division followed by %.*f rounds on the same side of every threshold for every float (a numerical statement about all float64 values). Trusted: go/types, go/ssa, strconv in the checker for the hex constants.",
+   "constant/table conformance evaluated in the checker (math/big, strconv) + decision-table extraction"),
 }
 
 NOT_YET = "check not built yet in this round (planned in DESIGN.md); not claimed until its rules run clean on the unchanged tree"
